@@ -7,6 +7,7 @@ import ast
 from ..context import Ctx
 from ..loader import AnalysisError, norm, own_nodes
 from ..report import RuleResult
+from .common import is_que, private_parts
 
 META = {
     "explanation": (
@@ -63,7 +64,8 @@ def check(ctx: Ctx) -> list[RuleResult]:
                 v = l.ast.value  # type: ignore[union-attr]
                 if isinstance(v, ast.BinOp) and isinstance(v.op, ast.Add) and isinstance(v.right, ast.Constant) and v.right.value == 1 and isinstance(v.left, ast.Call) and norm(v.left.func) == "min":
                     args = {norm(a) for a in v.left.args}
-                    if args == {"self._qos.max_retries", "self.max_retry_limit"}:
+                    qos_names = {"self._qos"} | {norm(a0.value) for a0 in own_nodes(check_buf.node) if isinstance(a0, ast.Assign) and any(norm(t0) == "self._qos" for t0 in a0.targets) and isinstance(a0.value, ast.Name)}
+                    if any(args == {f"{q}.max_retries", "self.max_retry_limit"} for q in qos_names):  # the dequeued qos, by either name
                         lim_ok = True
             if ok and lim_ok:
                 r1.ok({"caller": "first transmission", "dominated_by": ["tx_count = 0", norm(limits[0].ast)]})
@@ -119,7 +121,10 @@ def check(ctx: Ctx) -> list[RuleResult]:
                 is_inc = (isinstance(n, ast.AugAssign) and isinstance(n.op, ast.Add)) or (isinstance(n, (ast.Assign, ast.AnnAssign)) and isinstance(n.value, ast.BinOp) and isinstance(n.value.op, ast.Add) and norm(n.value.left) == "self._cmd_tx_count")
                 if is_inc:
                     step = n.value if isinstance(n, ast.AugAssign) else n.value.right  # type: ignore[union-attr]
-                    if g2 is set_state and known_at(n, "timed_out") and isinstance(step, ast.Constant) and step.value == 1:
+                    # in set_state under `timed_out`, or in a private part of it under the parameter that receives timed_out
+                    ss_parts = private_parts(ctx, set_state)
+                    flag = "timed_out" if g2 is set_state else next((pn for g3, m3 in ss_parts if g3 is g2 for pn, av in m3.items() if av == "timed_out"), None)
+                    if flag is not None and known_at(n, flag) and isinstance(step, ast.Constant) and step.value == 1:
                         r1.ok({"tx_count_write": txt, "under": "timed_out"})
                     else:
                         r1.fail(f"{g2.short}:tx_count-increment", g2.loc(n), "tx_count is incremented outside set_state's timed_out branch (or not by exactly 1)")
@@ -170,9 +175,10 @@ def check(ctx: Ctx) -> list[RuleResult]:
     r2.nontrivial += 1
     from .common import expand, known_at
 
-    clears = [n for n in own_nodes(set_state.node) if isinstance(n, ast.Assign) and "self._cmd" in [norm(t) for t in n.targets] and isinstance(n.value, ast.Constant) and n.value.value is None]
+    ss_fns = [set_state] + [g3 for g3, _m in private_parts(ctx, set_state)]
+    clears = [(g3, n) for g3 in ss_fns for n in own_nodes(g3.node) if isinstance(n, ast.Assign) and "self._cmd" in [norm(t) for t in n.targets] and isinstance(n.value, ast.Constant) and n.value.value is None]
     # the command is cleared exactly where the new state is known to be neither WantEcho nor WantRply
-    okc = any(known_at(c, "not isinstance(self._state, WantRply)", set_state.node) and known_at(c, "not isinstance(self._state, WantEcho)", set_state.node) for c in clears)
+    okc = any(known_at(c, "not isinstance(self._state, WantRply)", g3.node) and known_at(c, "not isinstance(self._state, WantEcho)", g3.node) for g3, c in clears)
     if okc:
         r2.ok({"clears_cmd_when": "state is neither WantEcho nor WantRply"})
     else:
@@ -250,7 +256,7 @@ def check(ctx: Ctx) -> list[RuleResult]:
     for g2 in repo.funcs.values():
         if g2.module.name.startswith("ramses_tx"):
             for n in own_nodes(g2.node):
-                if isinstance(n, ast.Call) and isinstance(n.func, ast.Attribute) and n.func.attr in ("get_nowait", "get") and "_que" in norm(n.func.value):
+                if isinstance(n, ast.Call) and isinstance(n.func, ast.Attribute) and n.func.attr in ("get_nowait", "get") and is_que(g2.node, n.func.value):
                     gets.append((g2, n))
     if not gets:
         raise AnalysisError("no dequeue site found")
@@ -276,7 +282,8 @@ def check(ctx: Ctx) -> list[RuleResult]:
     loops = [x for x in own_nodes(check_buf.node) if isinstance(x, ast.While) and any(isinstance(c, ast.Call) and isinstance(c.func, ast.Attribute) and c.func.attr in ("get_nowait", "get") for c in ast.walk(x))]
     breaks = [b for lp in loops for b in ast.walk(lp) if isinstance(b, ast.Break)]
     has_task_done = any(isinstance(c, ast.Call) and isinstance(c.func, ast.Attribute) and c.func.attr == "task_done" for lp in loops for c in ast.walk(lp))
-    if loops and breaks and has_task_done and all(known_at(b, "not self._fut.done()") for b in breaks):
+    fut_names = {"self._fut"} | {norm(a.value) for a in own_nodes(check_buf.node) if isinstance(a, ast.Assign) and any(norm(t) == "self._fut" for t in a.targets) and isinstance(a.value, ast.Name)}
+    if loops and breaks and has_task_done and all(any(known_at(b, f"not {fn_}.done()") for fn_ in sorted(fut_names)) for b in breaks):
         r4.ok({"skips_finished_entries": "the dequeue loop is only left with a future that is not done; task_done() for the others"})
     else:
         r4.fail(f"{check_buf.short}:skip-finished", check_buf.loc(), "entries whose caller already gave up (future done) are no longer skipped: a command could be transmitted after its caller was answered")
@@ -289,7 +296,7 @@ def check(ctx: Ctx) -> list[RuleResult]:
     from .common import module_scope
 
     sc_scope = [g for g in module_scope(ctx, sc) if g is sc or (g.cls is sc.cls and any(cs.caller is sc and g in cs.callees for cs in ctx.cg.calls_in(sc)))]
-    puts_in = [(g, n) for g in sc_scope for n in own_nodes(g.node) if isinstance(n, ast.Call) and isinstance(n.func, ast.Attribute) and n.func.attr in ("put_nowait", "put") and "_que" in norm(n.func.value)]
+    puts_in = [(g, n) for g in sc_scope for n in own_nodes(g.node) if isinstance(n, ast.Call) and isinstance(n.func, ast.Attribute) and n.func.attr in ("put_nowait", "put") and is_que(g.node, n.func.value)]
     if not puts_in:
         raise AnalysisError("no queue put in send_cmd")
     for put_fn, pcall in puts_in:
@@ -367,6 +374,15 @@ def check(ctx: Ctx) -> list[RuleResult]:
                 arg = c.args[i] if 0 <= i < len(c.args) else None
             if arg is None:
                 star = next((k.value for k in c.keywords if k.arg is None), None)
+                # `**local` where the local is a dict display holding the qos: the value under "qos" is the argument
+                if isinstance(star, ast.Name):
+                    dd = [d.value for d in own_nodes(site.caller.node) if isinstance(d, (ast.Assign, ast.AnnAssign)) and d.value is not None and norm(d.targets[0] if isinstance(d, ast.Assign) else d.target) == star.id]
+                    if len(dd) == 1 and isinstance(dd[0], ast.Dict):
+                        arg = next((v for k, v in zip(dd[0].keys, dd[0].values) if isinstance(k, ast.Constant) and k.value == "qos"), None)
+                        if arg is not None:
+                            hops.append((site.caller, c, arg))
+                            todo.append(site.caller)
+                            continue
                 ck = site.caller.node.args.kwarg
                 if star is not None and ck is not None and isinstance(star, ast.Name) and star.id == ck.arg:
                     # forwarded wholesale: fine unless the hop edits the mapping's qos entry
